@@ -69,13 +69,17 @@ def flat (p : Bytes) : Bytes := p.map (fun c => if c == 47 then 95 else c)
     `in/<flattened path>` per input file it read (so the set of entries follows the inputs) -/
 def dirVal (b : Bytes) (ins : List (Path × Val)) : Val :=
   let fixed : List (Bytes × DirVal.Ent) :=
-    [(str "./a.txt", .file b), (str "./link", .link (str "a.txt")), (str "./sub/b.txt", .file (b ++ str "+" ++ nl))]
+    [(str "./a.txt", .file b), (str "./empty.txt", .file []), (str "./link", .link (str "a.txt")),
+     (str "./sub/b.txt", .file (b ++ str "+" ++ nl))]
   let per := ins.map fun pc => (str "./in/" ++ flat pc.1, DirVal.Ent.file pc.2)
   DirVal.encTree (DirVal.ofList (fixed ++ per))
 
+/-- a file output whose name ends in `.empty` is a stamp: the command creates it empty -/
+def isStamp (p : Path) : Bool := (str ".empty").isSuffixOf p
+
 def body (salt : Bytes) (o : OutDef) (com : Bytes) (ins : List (Path × Val)) : Val :=
   let b := str "T " ++ salt ++ str " " ++ o.path ++ nl ++ com
-  if o.dir then dirVal b ins else b
+  if o.dir then dirVal b ins else if isStamp o.path then [] else b
 
 def presentInputs (v : View) : List (Path × Val) :=
   v.inputs.filterMap fun pv => pv.2.map fun c => (pv.1, c)
